@@ -15,6 +15,7 @@ CONSTANTS World,      \* [specs, good, goods, bare, opt_host, opt_port, root, sl
           Configs,    \* values the environment gives to the mode option (sequences of spec ids)
           ExtAddrs,   \* addresses another process may hold: [tp, host, port]
           Alone,      \* specs the environment instantiates directly (ServerInstance.make)
+          Dests,      \* upstream destinations [host, port, tp] offered to the server_connect hook
           Started,    \* TRUE: behaviours begin after the running hook
           Ops,        \* names of the environment actions of this instance
           MaxOps, MaxGen
@@ -170,7 +171,9 @@ DoStart(st, g) ==
 Brief1(ob, g) == [spec |-> ob[g].spec, gen |-> g, run |-> ob[g].socks # <<>>]
 Full1(ob, g) == [spec |-> ob[g].spec, gen |-> g, run |-> ob[g].socks # <<>>,
                  addrs |-> [i \in 1..Len(ob[g].socks) |-> <<ob[g].socks[i].host, ob[g].socks[i].port>>],
-                 exc |-> ob[g].exc, hint |-> ob[g].hint]
+                 exc |-> ob[g].exc, hint |-> ob[g].hint,
+                 json |-> [run |-> ob[g].socks # <<>>, exc |-> ob[g].exc # "", spec |-> TRUE,
+                           addrs |-> [i \in 1..Len(ob[g].socks) |-> <<ob[g].socks[i].host, ob[g].socks[i].port>>]]]
 BriefList(ord, ob) == [i \in 1..Len(ord) |-> Brief1(ob, ord[i])]
 ChangedEv(ord, ob) == [k |-> "changed", insts |-> BriefList(ord, ob)]
 UpdEv(ok, ord, ob) == [k |-> "upd", res |-> ok, exc |-> "", insts |-> BriefList(ord, ob)]
@@ -318,6 +321,15 @@ ExtFree(e) ==
   /\ Emit(<<[k |-> "ext_free", tp |-> e.tp, host |-> e.host, port |-> e.port]>>)
   /\ dirty' = TRUE /\ nops' = nops + 1
   /\ UNCHANGED <<optmode, optserver, psrun, order, objs, open, nsid, eph, tasks, released, alone>>
+\* Proxyserver.server_connect: refuse destinations that are our own listening sockets (all of Dests are loopback
+\* hosts, so connect_is_local holds: the port and the mode's transport decide)
+Connect(d) ==
+  /\ Env /\ "Connect" \in Ops
+  /\ LET hit == \E i \in 1..Len(order) : /\ P[objs[order[i]].spec].tp \in {"both", d.tp}
+                                          /\ \E k \in 1..Len(objs[order[i]].socks) : objs[order[i]].socks[k].port = d.port IN
+     Emit(<<[k |-> "connect", host |-> d.host, port |-> d.port, tp |-> d.tp, refused |-> hit, err |-> ""]>>)
+  /\ dirty' = TRUE /\ nops' = nops + 1
+  /\ UNCHANGED <<optmode, optserver, psrun, order, objs, open, ext, nsid, eph, tasks, released, alone>>
 \* ServerInstance.make / start / stop called directly (the module docstring's example)
 Make(s) ==
   /\ Env /\ "Make" \in Ops /\ P[s].res = "ok" /\ (IF alone = 0 THEN TRUE ELSE objs[alone].socks = <<>>)
@@ -352,6 +364,7 @@ Next == \/ UpdBegin \/ StopOne \/ StartOne \/ UpdEnd \/ Snap
         \/ \E e \in ExtAddrs : ExtBind(e)
         \/ \E e \in ExtAddrs : ExtFree(e)
         \/ \E s \in Alone : Make(s)
+        \/ \E d \in Dests : Connect(d)
         \/ IStart \/ IStop
 Spec == Init /\ [][Next]_vars
 
